@@ -474,3 +474,99 @@ add('c20-get-level-sets-up', LG, "    logger = logging.getLogger('emd')\n    for
     'breaking', ['C20'], 'C20.R5')
 add('c18-mask-amp-ndarray-test', S, "        if isinstance(mask_amp, (int, float)):\n            amp = mask_amp * sd\n        else:\n            # Should be array_like if not a single number\n            amp = mask_amp[imf_layer] * sd",
     "        if isinstance(mask_amp, np.ndarray):\n            amp = mask_amp[imf_layer] * sd\n        else:\n            amp = mask_amp * sd", 'breaking', ['C18'], 'C18.R6')
+
+
+# ---------------------------------------------------------------- rules added from the mutation experiment
+CY = 'emd/cycles.py'
+add('m-c14-bin-axis', CY, "            avg[ii - 1, ...] = np.average(x[inds, ...], axis=0)\n            v = np.average(\n",
+    "            avg[ii - 1, ...] = np.average(x[inds, ...])\n            v = np.average(\n", 'breaking', ['C14'], 'C14.R4')
+add('m-c14-bin-default-edges', CY, "        bin_edges, bin_centres = spectra.define_hist_bins(0, 2 * np.pi, nbins)\n    else:\n        nbins = len(bin_edges) - 1",
+    "        bin_edges, bin_centres = spectra.define_hist_bins(0, np.pi, nbins)\n    else:\n        nbins = len(bin_edges) - 1",
+    'breaking', ['C14'], 'C14.R4')
+add('m-c14-bin-digitize-swapped', CY, "    bin_inds = np.digitize(ip, bin_edges)\n", "    bin_inds = np.digitize(bin_edges, ip)\n",
+    'breaking', ['C14'], 'C14.R4')
+add('m-c14-bin-alloc', CY, "    out_dims = list((nbins, *x.shape[1:]))\n", "    out_dims = list((nbins, *x.shape[0:]))\n",
+    'breaking', ['C14'], 'C14.R4')
+add('m-c14-bin-mean-forms-benign', CY, "            avg[ii - 1, ...] = np.average(x[inds, ...], axis=0)\n            v = np.average(\n",
+    "            avg[ii - 1, ...] = x[inds, ...].mean(axis=0)\n            v = np.average(\n", 'benign', ['C14'])
+add('m-c14-bin-sum-count-benign', CY, "            avg[ii - 1, ...] = np.average(x[inds, ...], axis=0)\n            v = np.average(\n",
+    "            avg[ii - 1, ...] = np.sum(x[inds, ...], axis=0) / np.sum(inds)\n            v = np.average(\n", 'benign', ['C14'])
+add('m-c14-bin-rename-benign', CY, "    return avg, var, bin_centres\n\n\n",
+    "    binned_mean = avg\n    return binned_mean, var, bin_centres\n\n\n", 'benign', ['C14'])
+add('m-c14-bin-empty-guard', CY, "            if inds.sum() > 0:\n                avg[ii - 1, ...] = np.average(x[inds, ...], axis=0,",
+    "            if inds.sum() < 1:\n                avg[ii - 1, ...] = np.average(x[inds, ...], axis=0,", 'breaking', ['C14'], 'C14.R4')
+add('m-c14-align-cycles-negated', CY, "    if cycles is None:\n        cycles = get_cycle_vector(ip, return_good=False)\n    cycles = _ensure_cycle_inputs(cycles)\n\n    cycles.mode = mode",
+    "    if cycles is not None:\n        cycles = get_cycle_vector(ip, return_good=False)\n    cycles = _ensure_cycle_inputs(cycles)\n\n    cycles.mode = mode",
+    'breaking', ['C14'], 'C14.R3')
+add('m-c14-align-skip-negated', CY, "        if (ii is not None) and (cind is not ii):\n            continue\n        if cycle_inds is None:\n            continue\n        phase_data",
+    "        if (ii is None) and (cind is not ii):\n            continue\n        if cycle_inds is None:\n            continue\n        phase_data",
+    'breaking', ['C14'], 'C14.R3')
+add('m-c14-align-skip-equal-benign', CY, "        if (ii is not None) and (cind is not ii):\n            continue\n        if cycle_inds is None:\n            continue\n        phase_data",
+    "        if ii is not None and cind != ii:\n            continue\n        if cycle_inds is None:\n            continue\n        phase_data",
+    'benign', ['C14'])
+add('m-c15-dispatch-func-dropped', CY, "                vals = _cycles_support.get_cycle_stat_from_samples(vals, self.cycle_vect, func=func)\n",
+    "                vals = _cycles_support.get_cycle_stat_from_samples(vals, self.cycle_vect)\n", 'breaking', ['C15'], 'C15.R9')
+add('m-c15-dispatch-cache-negated', CY, "            if self._slice_cache is None:\n                vals = _cycles_support.get_cycle_stat_from_samples",
+    "            if self._slice_cache is not None:\n                vals = _cycles_support.get_cycle_stat_from_samples", 'breaking', ['C15'], 'C15.R9')
+add('m-c15-dispatch-always-labels-benign', CY,
+    "            if self._slice_cache is None:\n                vals = _cycles_support.get_cycle_stat_from_samples(vals, self.cycle_vect, func=func)\n            else:\n                vals = _cycles_support.get_slice_stat_from_samples(vals, self._slice_cache, func=func)\n",
+    "            vals = _cycles_support.get_cycle_stat_from_samples(vals, self.cycle_vect, func=func)\n", 'benign', ['C15'])
+add('m-c15-chain-metric-unprojected', CY, "        vals = _cycles_support.project_chain_to_cycles(vals, self.chain_vect, self.subset_vect)\n\n        if dtype is not None:\n            # Can't have nans",
+    "        if dtype is not None:\n            # Can't have nans", 'breaking', ['C15'], 'C15.R9')
+add('m-c15-chain-metric-recode', CY, "            vals[np.isnan(vals)] = -1\n            vals = vals.astype(dtype)\n\n        self.add_cycle_metric(name, vals)\n\n    def compute_cycle_timings",
+    "            vals[np.isnan(vals)] = 0\n            vals = vals.astype(dtype)\n\n        self.add_cycle_metric(name, vals)\n\n    def compute_cycle_timings",
+    'breaking', ['C15'], 'C15.R9')
+add('m-c15-add-metric-dtype-negated', CY, "        if dtype is not None:\n            if dtype is int:\n                cycle_vals = cycle_vals.copy()",
+    "        if dtype is None:\n            if dtype is int:\n                cycle_vals = cycle_vals.copy()", 'breaking', ['C15'], 'C15.R9')
+add('m-c15-chain-ind-range', CY, "        vals = _cycles_support.project_chain_to_cycles(np.arange(self.chain_vect.max()+1),",
+    "        vals = _cycles_support.project_chain_to_cycles(np.arange(self.chain_vect.max()),", 'breaking', ['C15'], 'C15.R9')
+add('m-c15-chain-position-members', CY, "            inds = np.where(self.chain_vect == ii)[0]\n            chain_pos[inds] = np.arange(len(inds))",
+    "            inds = np.where(self.chain_vect != ii)[0]\n            chain_pos[inds] = np.arange(len(inds))", 'breaking', ['C15'], 'C15.R9')
+add('m-c15-chain-position-longer-range-benign', CY, "        for ii in range(self.chain_vect.max() + 1):\n            inds = np.where(self.chain_vect == ii)[0]",
+    "        for ii in range(self.chain_vect.max() + 2):\n            inds = np.where(self.chain_vect == ii)[0]", 'benign', ['C15'])
+add('m-c15-chain-position-ones-benign', CY, "        chain_pos = np.zeros_like(self.chain_vect)\n", "        chain_pos = np.ones_like(self.chain_vect)\n",
+    'benign', ['C15'])
+add('m-c15-init-cache-attr', CY, "            self._slice_cache = None\n            self._slice_cache_aug = None\n", "            self._slice_cache_aug = None\n",
+    'breaking', ['C15'], 'C15.R10')
+add('m-c15-init-helper-benign', CY, "        self.subset_vect = None\n        self.chain_vect = None\n        self.mask_conditions = None\n\n        self.metrics = dict()\n        self.compute_cycle_metric('is_good', self.phase,\n                                  functools.partial(is_good, phase_edge=phase_edge), dtype=int)\n        if compute_timings:\n            self.compute_cycle_timings()\n",
+    "        self._reset_subset()\n\n        self.metrics = dict()\n        self.compute_cycle_metric('is_good', self.phase,\n                                  functools.partial(is_good, phase_edge=phase_edge), dtype=int)\n        if compute_timings:\n            self.compute_cycle_timings()\n\n    def _reset_subset(self):\n        self.subset_vect = None\n        self.chain_vect = None\n        self.mask_conditions = None\n",
+    'benign', ['C15', 'C13'])
+add('m-c15-chain-unlabelled', CY, "        if dchain_inds[ii] == 1:\n            chainv[ii] = count\n", "        if dchain_inds[ii] == 1:\n            pass\n",
+    'breaking', ['C15'], 'C15.R3')
+add('m-c17-member-axis', CY, "np.sum(inds[closest_uni_inds, ii, None] == uni, axis=1)", "np.sum(inds[closest_uni_inds, ii, None] == uni)",
+    'breaking', ['C17'], 'C17.R4')
+add('m-c17-member-ne', CY, "np.sum(inds[closest_uni_inds, ii, None] == uni, axis=1)", "np.sum(inds[closest_uni_inds, ii, None] != uni, axis=1)",
+    'breaking', ['C17'], 'C17.R4')
+add('m-c17-member-any-benign', CY, "np.sum(inds[closest_uni_inds, ii, None] == uni, axis=1)", "np.any(inds[closest_uni_inds, ii, None] == uni, axis=1)",
+    'benign', ['C17'])
+add('m-c17-member-isin-benign', CY, "np.sum(inds[closest_uni_inds, ii, None] == uni, axis=1)", "np.isin(inds[closest_uni_inds, ii], uni)",
+    'benign', ['C17'])
+add('m-c17-selected-polarity', CY, "        uni = uni[bo == False]  # noqa: E712", "        uni = uni[bo == True]  # noqa: E712",
+    'breaking', ['C17'], 'C17.R4')
+add('m-c17-selected-not-recorded', CY, "        selected.extend(inds[np.where(uni_matches)[0], ii])\n", "        pass\n",
+    'breaking', ['C17'], 'C17.R4')
+add('m-c17-final-float', CY, "    final = np.zeros((II.shape[0],), dtype=int)\n", "    final = np.zeros((II.shape[0],))\n",
+    'breaking', ['C17'], 'C17.R4')
+add('m-c17-final-full-benign', CY, "    final = np.zeros((II.shape[0],), dtype=int)\n", "    final = np.full(II.shape[0], -1)\n",
+    'benign', ['C17'])
+add('m-c17-marks-ones', CY, "        uni_matches = np.zeros((inds.shape[0],))\n", "        uni_matches = np.ones((inds.shape[0],))\n",
+    'breaking', ['C17'], 'C17.R4')
+add('m-c17-unique-mask-eq', CY, "    mask[1:] = aux[1:] != aux[:-1]\n", "    mask[1:] = aux[1:] == aux[:-1]\n", 'breaking', ['C17'], 'C17.R1')
+add('m-c17-unique-first-unset', CY, "    mask[:1] = True\n", "    mask[:0] = True\n", 'breaking', ['C17'], 'C17.R1')
+add('m-c17-unique-np-unique-benign', CY, "    return aux[mask], ar_inds\n", "    return np.unique(ar), ar_inds\n", 'benign', ['C17'])
+add('m-c17-argmax-claimant-benign', CY, "        ix = [np.argmin(D[uni_inds[jj], ii]) for jj in range(len(uni))]", "        ix = [np.argmax(D[uni_inds[jj], ii]) for jj in range(len(uni))]",
+    'benign', ['C17'])
+add('m-c08-noise-rows', S, "    noise = np.random.randn(X.shape[0], nensembles)\n", "    noise = np.random.randn(X.shape[1], nensembles)\n",
+    'breaking', ['C08'], 'C08.R1')
+add('m-c08-noise-layout-swapped', S, "    noise = np.random.randn(X.shape[0], nensembles)\n", "    noise = np.random.randn(nensembles, X.shape[0])\n",
+    'breaking', ['C08'], 'C08.R1')
+add('m-c08-noise-layout-transposed-benign', S, "    noise = np.random.randn(X.shape[0], nensembles)\n    args = [(X, noise_scaling, noise[:, ii, None],",
+    "    noise = np.random.randn(nensembles, X.shape[0])\n    args = [(X, noise_scaling, noise[ii, :, None],", 'benign', ['C08'])
+add('m-c08-ceemd-noise-added', S, "    noise = noise - np.array([r[:, 0] for r in res]).T\n\n    # One IMF has been extracted so far",
+    "    noise = noise + np.array([r[:, 0] for r in res]).T\n\n    # One IMF has been extracted so far", 'breaking', ['C08'], 'C08.R4')
+add('m-c12-container-step-default', CY, "    def __init__(self, IP, phase_step=1.5 * np.pi, phase_edge=np.pi / 12,",
+    "    def __init__(self, IP, phase_step=1.5 / np.pi, phase_edge=np.pi / 12,", 'breaking', ['C12'], 'C12.R')
+add('m-c13-container-edge-default', CY, "    def __init__(self, IP, phase_step=1.5 * np.pi, phase_edge=np.pi / 12,",
+    "    def __init__(self, IP, phase_step=1.5 * np.pi, phase_edge=np.pi / 13,", 'breaking', ['C13'], 'C13.R3')
+add('m-c13-container-edge-form-benign', CY, "    def __init__(self, IP, phase_step=1.5 * np.pi, phase_edge=np.pi / 12,",
+    "    def __init__(self, IP, phase_step=np.pi * 1.5, phase_edge=(1 / 12) * np.pi,", 'benign', ['C12', 'C13'])
